@@ -71,6 +71,8 @@ class ExplorerScriptSsbDecompiler:
     dungeon_mode_constants: DungeonModeConstants
     # Since forever blocks break_loops do NOT have to be on the exact next level, we use a stack system instead!
     forever_start_handler_stack: list[ForeverWriteHandler] = []
+    # Vertices that block write handlers are currently writing -> number of labels printed when they started.
+    vertices_in_progress: dict[tuple[int, int], int]
 
     def __init__(
         self,
@@ -99,12 +101,14 @@ class ExplorerScriptSsbDecompiler:
         self.performance_progress_list_var_name = performance_progress_list_var_name
         self.dungeon_mode_constants = dungeon_mode_constants
         self.forever_start_handler_stack = []
+        self.vertices_in_progress = {}
 
     def convert(self) -> tuple[str, SourceMap]:
         logger.debug("Decompiling ExplorerScript...")
         self._output = ""
         self.indent = 0
         self.labels_already_printed = []
+        self.vertices_in_progress = {}
         self._line_number = 1
         self.smb = SourceMapBuilder()
 
